@@ -1,7 +1,7 @@
 -------------------------- MODULE GossipValidateTrace --------------------------
 (***************************************************************************)
 (* Trace layer of C04.  One line per case executed on the real code:       *)
-(*   c   the case: message record and receiver state (GossipValidate)      *)
+(*   c   the case: flavour, message record, receiver state (GossipValidate)*)
 (*   o   the observed outcome:                                             *)
 (*        v     verdict of the real combined topic validator               *)
 (*              ("accept" | "reject" | "ignore" | "panic" | "timeout")     *)
@@ -13,6 +13,7 @@
 (*              good = every key is the dealer's key for its identity]     *)
 (*        d     rows added: decryption_key_share, decryption_key, any      *)
 (*              other table changed                                        *)
+(*        nv    number of validators registered on the topic               *)
 (* Cases of class "random" (arbitrary decodable protobufs from the seeded  *)
 (* generator, classified syntactically into the record) are judged by the  *)
 (* same operators.                                                         *)
@@ -31,9 +32,9 @@ TInit == l = 1 /\ viol = {} /\ drift = {}
 TNext ==
     /\ l <= Len(Trace)
     /\ l' = l + 1
-    /\ LET m == Trace[l].c.m  recv == Trace[l].c.recv  o == Trace[l].o IN
-       /\ viol' = viol \cup {<<l, mon>> : mon \in Failed(m, recv, o)}
-       /\ drift' = drift \cup (IF Pipeline(m, recv) = o THEN {} ELSE {l})
+    /\ LET fl == Trace[l].c.fl  m == Trace[l].c.m  recv == Trace[l].c.recv  o == Trace[l].o IN
+       /\ viol' = viol \cup {<<l, mon>> : mon \in Failed(fl, m, recv, o)}
+       /\ drift' = drift \cup (IF Conforms(fl, m, recv, o) THEN {} ELSE {l})
 TSpec == TInit /\ [][TNext]_tvars
 
 Done == l <= Len(Trace) \/
